@@ -113,7 +113,7 @@ PROPS["C15"] = {
 }
 
 PROPS["C03"] = {
-    "imports": ["NsyncVerif.Props.C03", "NsyncVerif.Proofs.VC", "NsyncVerif.Props.C03Once", "NsyncVerif.Props.C03Counter", "NsyncVerif.Props.C03Signal"],
+    "imports": ["NsyncVerif.Props.C03", "NsyncVerif.Proofs.VC", "NsyncVerif.Props.C03Once", "NsyncVerif.Props.C03Counter", "NsyncVerif.Props.C03Signal", "NsyncVerif.Props.C03Note"],
     "theorems": ["NsyncVerif.Props.C03." + t for t in ["C03_release_chain", "C03_mutex_handoff", "C03_release_recorded", "C03_released_monotone",
                  "C03_unlock_happens_before_lock", "C03_orders_required"]] +
                 ["NsyncVerif.VC." + t for t in ["vc_mono_run", "acq_sees_relc", "rel_records", "release_chain_run", "message_passing",
@@ -122,15 +122,19 @@ PROPS["C03"] = {
                 ["Counter." + t for t in ["C03_counter_machine", "C03_counter_adds_chain", "C03_counter", "C03_counter_carrier", "C03_counter_no_other_edges", "C03_counter_value", "C03_counter_add"]] +
                 ["NsyncVerif.CvFix." + t for t in ["C03_signal", "C03_signal_waitn", "C03_signal_before_call", "C03_signal_wait", "C03_signal_dequeue", "C03_signal_invariant",
                  "C03_cv_spinlock", "C03_signal_machine", "C03_signal_needs_release_store", "C03_signal_needs_acquire_load", "C03_signal_waitn_needs_acquire_load",
-                 "C03_signal_waitn_needs_acquire_loop", "C03_signal_transfer_partial", "C03_signal_transfer_released"]],
+                 "C03_signal_waitn_needs_acquire_loop", "C03_signal_transfer_partial", "C03_signal_transfer_released"]] +
+                ["Note." + t for t in ["C03_note_machine", "C03_note_orders", "C03_note_no_other_edges", "C03_note_invariant", "C03_note_edge", "C03_note_store_once",
+                 "C03_note_single_store", "C03_note_the_notifier", "C03_note_origin", "C03_note_ancestor", "C03_note_lazy_expiry", "C03_note_born",
+                 "C03_note_is_notified", "C03_note_wait", "C03_note_carrier", "C03_note_trace", "C03_note_any_observer",
+                 "ExampleVC.C03_note_needs_release_store", "ExampleVC.C03_note_needs_acquire_load", "ExampleVC.C03_note_born_needs_release_store"]],
     "layers": ["vc", "mux", "once", "counter", "cv"],
-    "tie": ["NsyncVerif.Proofs.TieOrders", "NsyncVerif.Proofs.TieSites", "NsyncVerif.Proofs.TieSignal"],
+    "tie": ["NsyncVerif.Proofs.TieOrders", "NsyncVerif.Proofs.TieSites", "NsyncVerif.Proofs.TieSignal", "NsyncVerif.Proofs.TieNote"],
     "harness_args": ["plain=1"],     # log nsync's own plain accesses to registered objects: raced-checked by the vc layer
     "oracles": {"vc"},
     "plan": {"quick": [("core", 80, 6), ("cv", 50, 6), ("muwait", 50, 6), ("once", 60, 6), ("ctr", 60, 6)],
              "thorough": [("core", 800, 12), ("cv", 500, 12), ("muwait", 500, 12), ("once", 600, 12), ("ctr", 600, 12), ("mixed", 500, 12)]},
     "level_text": "Kernel-checked theorems: (1) over the MuX protocol with declared orders and ghost vector clocks — the release clock of the mutex word always covers every past release point (C03_release_chain), so whatever a thread did before giving up its share happens before the continuation of every thread that later comes to own a share, for all interleavings and any number of threads, using only acquire/release strength and the C++20 release-sequence rule (C03_unlock_happens_before_lock); the acceptor requires acquire on every share/spinlock-taking write, release on every share/spinlock-releasing write and release on the plain stores (C03_orders_required); (2) over the generic vector-clock machine — the message-passing theorem (release write, then only RMWs / dominated release stores, then acquire read ⇒ happens-before); (3) over the PRODUCT of the Once acceptor with the clock machine — the end of the once-function happens before every nsync_run_once* return, for all accepted traces (C03_once), with the negative control that a relaxed final load carries no edge; (4) over the product of the Counter acceptor with the clock machine — the pre-CAS clock of the zeroing add and of every add before it is below the clock of every nsync_counter_wait that returns 0; the carrier is the waiter's own acquire load of the value on every path, never the semaphore or the counter mutex (C03_counter, C03_counter_carrier, C03_counter_no_other_edges). Tied to the code by lockstep: every atomic operation of every explored execution goes through the vc layer (which also checks the five hand-offs of the statement on the real executions: data-race detector for mutex-protected client data AND for nsync's own plain fields (compiler-instrumented accesses to queue links, waiter records, note and counter fields), once end→return, note set→observation, counter zero→wait return, signal→woken return) and the mutex word's operations through MuX's order checks.",
-    "level_note": "The mutex, once, counter and cv-signal edges are theorems (products of the layer acceptors with the clock machine; the signal edge over the CvFix model for nsync_cv_wait* and nsync_wait_n, its site orders tied to the regenerated site table by Tie.signal_sites_tie). Still partial: (a) the note edge is covered by the generic message-passing theorem plus the vc layer's per-execution checks only; (b) for waiters a signal TRANSFERS to the mutex queue the theorem stops at the transfer (C03_signal_transfer_partial: the waker's clock is in the release clock of the mutex word) — the final wake-up is the mutex unlock path, an edge of the mutex layer (C03_unlock_happens_before_lock), and the composition of the two layers is not a theorem. Orders of sites no explored schedule reaches are not covered by lockstep. SC interleavings only, as the property specifies.",
+    "level_note": "The mutex, once, counter and cv-signal edges are theorems (products of the layer acceptors with the clock machine; the signal edge over the CvFix model for nsync_cv_wait* and nsync_wait_n, its site orders tied to the regenerated site table by Tie.signal_sites_tie). The note edge is a product theorem over the Note model as well (every observer of a note's flag — nsync_note_is_notified, nsync_note_wait on the fast and on the woken path, and any later acquire load incl. the cancellable waits' — is ordered after THE one store of that flag and after the call that led to it: explicit notify of the note or an ancestor, the lazy-expiry poller, or the creator of a born-notified child; the flag is stored at most once; site orders tied by Tie.note_sites_tie). Scope facts made explicit by witnesses: a redundant nsync_note_notify that finds the flag set, and a note with a zero deadline ('notified' with the flag clear), are the source of no edge. Still partial: for waiters a signal TRANSFERS to the mutex queue the theorem stops at the transfer (C03_signal_transfer_partial: the waker's clock is in the release clock of the mutex word) — the final wake-up is the mutex unlock path, an edge of the mutex layer (C03_unlock_happens_before_lock), and the composition of the two layers is not a theorem. Orders of sites no explored schedule reaches are not covered by lockstep. SC interleavings only, as the property specifies.",
 }
 
 MUQ = "NsyncVerif.MuQ."
@@ -249,35 +253,38 @@ PROPS["C11"] = {
 }
 
 PROPS["C13"] = {
-    "imports": ["NsyncVerif.Props.C13Mu", "NsyncVerif.Props.C13CvFix", "NsyncVerif.Props.C13WaitN"],
+    "imports": ["NsyncVerif.Props.C13Mu", "NsyncVerif.Props.C13CvFix", "NsyncVerif.Props.C13WaitN", "NsyncVerif.Props.C13Cancel"],
     "theorems": ["NsyncVerif.MuQ." + t for t in ["C13_release_point", "C13_before_release_point", "C13_release_is_last_needed"]] +
                 ["NsyncVerif.CvFix." + t for t in ["C13_record_touch", "C13_record_touch_nw_full_true", "C13_listed_owner_waits", "C13_listed_alive",
                  "C13_owner_returns_clean", "C13_owner_returns_clean_waitn", "C13_idle_not_touched", "C13_late_V_touches_nothing"]] +
-                [WN + t for t in ["C13_record_lifetime", "C13_owner_access", "C13_record_lifetime_post", "C13_owner_returns_after", "C13_owner_returns_after_stack"]],
+                [WN + t for t in ["C13_record_lifetime", "C13_owner_access", "C13_record_lifetime_post", "C13_owner_returns_after", "C13_owner_returns_after_stack"]] +
+                ["SemWait." + t for t in ["C13_cancel_record_touch", "C13_cancel_owner_access", "C13_cancel_owner_returns_clean", "C13_cancel_remove_safe"]],
     "layers": ["muq", "mux"],
     "family_layers": {"refcount": ["muq", "mux"], "core": ["muq", "mux"], "waitn": ["waitn", "cv", "mux"], "waitn_rep": ["waitn", "cv", "mux"], "waitn_cv": ["waitn", "cv", "mux"],
-                      "waitn_f3": ["waitn", "cv", "mux"], "cv": ["cv", "mux"], "muc": ["muc", "mux"], "cancel_only": ["cv", "muc", "mux"], "corpus": ["waitn", "cv", "mux"]},
+                      "waitn_f3": ["waitn", "cv", "mux"], "cv": ["semwait", "cv", "mux"], "muc": ["semwait", "muc", "mux"], "cancel_only": ["semwait", "cv", "muc", "mux"], "corpus": ["waitn", "cv", "mux"]},
     "oracles": {"dead-object", "dead-stack", "stuck", "steplimit", "panic", "crash", "exclusion", "exclusion-ann"},
     "plan": {"quick": [("refcount", 150, 10), ("waitn", 100, 8), ("waitn_rep", 80, 8), ("waitn_f3", 60, 8), ("cv", 80, 8), ("muc", 40, 6), ("cancel_only", 80, 8)],
              "thorough": [("refcount", 1500, 20), ("waitn", 1000, 16), ("waitn_rep", 800, 16), ("waitn_f3", 600, 16), ("cv", 800, 16), ("muc", 400, 12), ("cancel_only", 800, 16)]},
     "harness_args": ["checkplain=1"],
-    "level_text": "Kernel-checked theorems: (mutex, MuQ model) once a thread inside nsync_mu_unlock / runlock / unlock_slow owns neither a share nor the spinlock, no later step of that call touches the mutex, and the step that crosses that point is a successful CAS on the word (C13_release_point, C13_release_is_last_needed): whoever acquires afterwards and frees the memory races with nothing; (cv, CvFix model of the repaired cv.c) every access to a waiter record by a thread other than its owner happens while the record is queued or on that waker's private list with its owner still inside the wait, for pooled records and for nsync_wait_n records alike, and the owner returns only after the record is on no list (C13_record_touch, C13_record_touch_nw_full_true, C13_owner_returns_clean[_waitn]); the V that follows the waker's last store touches no record (C13_late_V_touches_nothing); (nsync_wait_n, WaitN model) every access by a non-owner to a record of notes / counters / cvs is to a registered record, and at the return no record of the call is registered, queued or on a waker's list (C13_record_lifetime, C13_owner_returns_after). Tied to the code by lockstep (refcount / waitn* / cv / muc families through the matching acceptors) and by the runtime's liveness tracking: every atomic AND plain access (TSan instrumentation) of every explored execution is checked against reclaimed heap blocks, reclaimed mutexes and dead stack records (oracles dead-object, dead-stack).",
-    "level_note": "The on-stack record of a CANCELLABLE cv / mu wait (sem_wait.c: nw registered on the cancel note) has no Lean model yet: for it only the runtime oracle (dead-object on the note-notify path, families cv and muc with cancel notes) decides — partial. Defect F3 (found by this property's oracle) is repaired in /repo; the pre-repair model and refutation are kept (Props/C13Cv.lean). Sampled correspondence.",
+    "level_text": "Kernel-checked theorems: (mutex, MuQ model) once a thread inside nsync_mu_unlock / runlock / unlock_slow owns neither a share nor the spinlock, no later step of that call touches the mutex, and the step that crosses that point is a successful CAS on the word (C13_release_point, C13_release_is_last_needed): whoever acquires afterwards and frees the memory races with nothing; (cv, CvFix model of the repaired cv.c) every access to a waiter record by a thread other than its owner happens while the record is queued or on that waker's private list with its owner still inside the wait, for pooled records and for nsync_wait_n records alike, and the owner returns only after the record is on no list (C13_record_touch, C13_record_touch_nw_full_true, C13_owner_returns_clean[_waitn]); the V that follows the waker's last store touches no record (C13_late_V_touches_nothing); (nsync_wait_n, WaitN model) every access by a non-owner to a record of notes / counters / cvs is to a registered record, and at the return no record of the call is registered, queued or on a waker's list (C13_record_lifetime, C13_owner_returns_after); (cancellable cv / mu waits, SemWait model of sem_wait.c with the note-side walk of note.c) every access by a notifier to the on-stack record of nsync_sem_wait_with_cancel_ happens under the note's mutex with the record at the head of the note's list or just popped, while the owner is between its enqueue and the return of its final nsync_mu_lock (&note_mu), and the owner returns with the record on no list and no post owed (C13_cancel_record_touch, C13_cancel_owner_returns_clean). Tied to the code by lockstep (refcount / waitn* / cv / muc families through the matching acceptors) and by the runtime's liveness tracking: every atomic AND plain access (TSan instrumentation) of every explored execution is checked against reclaimed heap blocks, reclaimed mutexes and dead stack records (oracles dead-object, dead-stack).",
+    "level_note": "The SemWait layer models ONE flat cancel note per record (parents enter through an `inherit` event) and protocol-driven notifiers; the forest is the Note layer's business. Defect F3 (found by this property's oracle) is repaired in /repo; the pre-repair model and refutation are kept (Props/C13Cv.lean). Sampled correspondence.",
 }
 
 MC = "NsyncVerif.MuC."
 PROPS["C05"] = {
-    "imports": ["NsyncVerif.Props.C05CvFix", "NsyncVerif.Props.C05Mu"],
+    "imports": ["NsyncVerif.Props.C05CvFix", "NsyncVerif.Props.C05Mu", "NsyncVerif.Props.C05Cancel"],
     "theorems": ["NsyncVerif.CvFix." + t for t in ["C05_result_is_outcome", "C05_timedout", "C05_cancelled", "C05_no_resleep", "C05_not_sleeping"]] +
-                [MC + t for t in ["C05_mode", "C05_mode_recorded", "C05_mu_wait_0", "C05_timedout", "C05_cancelled", "C05_no_resleep_partial", "C05_timed_p_deadline", "C05_no_resleep_full_refuted"]],
+                [MC + t for t in ["C05_mode", "C05_mode_recorded", "C05_mu_wait_0", "C05_timedout", "C05_cancelled", "C05_no_resleep_partial", "C05_timed_p_deadline", "C05_no_resleep_full_refuted"]] +
+                ["SemWait." + t for t in ["C05_cancel_reason", "C05_cancel_reason_enqueued", "C05_cancel_consumed_step", "C05_cancel_zero_takes_token", "C05_cancel_no_missed",
+                 "C05_cancel_unlock_needs_empty", "C05_cancel_p_deadline", "C05_cancel_deadline_bound", "C05_cancel_l65_notified"]],
     "layers": ["cv", "mux"],
-    "family_layers": {"cv": ["cv", "mux"], "cv_raw": ["cv", "mux"], "muwait": ["muc", "mux"], "muc": ["muc", "mux"], "cancel_only": ["cv", "muc", "mux"], "timed_contended": ["cv", "muc", "mux"]},
+    "family_layers": {"cv": ["semwait", "cv", "mux"], "cv_raw": ["cv", "mux"], "muwait": ["muc", "mux"], "muc": ["semwait", "muc", "mux"], "cancel_only": ["semwait", "cv", "muc", "mux"], "timed_contended": ["cv", "muc", "mux"]},
     "oracles": {"early-timeout", "bad-cancel", "bad-result", "muwait-result", "swallowed-wakeup", "exclusion", "exclusion-ann", "stuck", "steplimit", "panic", "crash", "dead-object"},
     "plan": {"quick": [("cv", 120, 8), ("cv_raw", 40, 8), ("muwait", 100, 8), ("muc", 80, 6), ("cancel_only", 120, 10), ("timed_contended", 100, 10)],
              "thorough": [("cv", 1200, 16), ("cv_raw", 400, 16), ("muwait", 1000, 16), ("muc", 800, 12), ("cancel_only", 1200, 20), ("timed_contended", 1000, 20)]},
     "harness_args": ["checkplain=1"],
-    "level_text": "Kernel-checked theorems. cv half (CvFix model of cv.c + sem_wait.c): the value returned by nsync_cv_wait_with_deadline is the recorded outcome of the sleep (C05_result_is_outcome); ETIMEDOUT only with the deadline reached on the model clock, ECANCELED only with the cancel note notified (C05_timedout, C05_cancelled); once the outcome is non-zero the thread performs no further semaphore wait in this call before re-acquiring the mutex (C05_no_resleep, C05_not_sleeping). mu_wait half (MuC model of mu_wait.c on top of the mutex core): the call returns holding the mutex in the mode it was called with (C05_mode), returns 0 exactly when the condition is true at the return (C05_mu_wait_0), ETIMEDOUT / ECANCELED only for the stated reason (C05_timedout, C05_cancelled), a timed P never outlasts the deadline (C05_timed_p_deadline), and after a non-zero outcome no P is issued in that pass of the wait loop (C05_no_resleep_partial). Tied to the code by lockstep (cv / cv_raw families through CvFix, muwait / muc families through MuC, with cancel notes fresh / already notified / expiring, reader and writer mode) and by the interpreter's assertions on every wait return (shadow lock mode, virtual clock vs deadline, note flag, value of the condition).",
-    "level_note": "The literal reading 'no further semaphore wait' is REFUTED for nsync_mu_wait_with_deadline (C05_no_resleep_full_refuted: a timed-out waiter re-acquires through lock_slow and may sleep there; with the condition false it goes round the loop again with an already expired deadline) — this is consistent with the property's own wording ('returns as soon as the mutex can be re-acquired'), so it is not a finding. 'Holding the lock in the same mode' for the cv half rests on the mutex layer (C01/C02) and the interpreter's shadow mode. The cancel note is abstract in both models. Fair termination is a paper step; termination of every explored execution is checked (oracle stuck).",
+    "level_text": "Kernel-checked theorems. cv half (CvFix model of cv.c + sem_wait.c): the value returned by nsync_cv_wait_with_deadline is the recorded outcome of the sleep (C05_result_is_outcome); ETIMEDOUT only with the deadline reached on the model clock, ECANCELED only with the cancel note notified (C05_timedout, C05_cancelled); once the outcome is non-zero the thread performs no further semaphore wait in this call before re-acquiring the mutex (C05_no_resleep, C05_not_sleeping). mu_wait half (MuC model of mu_wait.c on top of the mutex core): the call returns holding the mutex in the mode it was called with (C05_mode), returns 0 exactly when the condition is true at the return (C05_mu_wait_0), ETIMEDOUT / ECANCELED only for the stated reason (C05_timedout, C05_cancelled), a timed P never outlasts the deadline (C05_timed_p_deadline), and after a non-zero outcome no P is issued in that pass of the wait loop (C05_no_resleep_partial). The shared sleep nsync_sem_wait_with_cancel_ (SemWait model: sem_wait.c with the note concretely — flag, deadline, list, mutex): ECANCELED only with the note notified or expired, ETIMEDOUT only with the deadline reached, 0 only with a token consumed (C05_cancel_reason); the P is issued with min(deadline, note expiry) and a timeout with the note's deadline nearer is converted to ECANCELED after the waiter itself notified the note (C05_cancel_p_deadline, C05_cancel_deadline_bound); and 'needs no further wake-up' in safety form: a notified note never leaves a waiter asleep unless its record is queued with the notifier holding the note's mutex, or a post is owed or pending (C05_cancel_no_missed — the control trace with the re-read under the lock removed is accepted by the variant model and ends with the waiter lost). Tied to the code by lockstep (cv / cv_raw families through CvFix, muwait / muc families through MuC, with cancel notes fresh / already notified / expiring, reader and writer mode) and by the interpreter's assertions on every wait return (shadow lock mode, virtual clock vs deadline, note flag, value of the condition).",
+    "level_note": "The literal reading 'no further semaphore wait' is REFUTED for nsync_mu_wait_with_deadline (C05_no_resleep_full_refuted: a timed-out waiter re-acquires through lock_slow and may sleep there; with the condition false it goes round the loop again with an already expired deadline) — this is consistent with the property's own wording ('returns as soon as the mutex can be re-acquired'), so it is not a finding. 'Holding the lock in the same mode' for the cv half rests on the mutex layer (C01/C02) and the interpreter's shadow mode. The cancel note is abstract in the CvFix and MuC models and concrete in SemWait (one flat note per record). Fair termination is a paper step; termination of every explored execution is checked (oracle stuck).",
 }
 
 PROPS["C06"] = {
@@ -286,9 +293,9 @@ PROPS["C06"] = {
                  "C06_samecond_ring_full_refuted"]],
     "layers": ["muc", "mux"],
     "tie": ["NsyncVerif.Proofs.TieConsts"],
-    "oracles": {"cond-under-lock", "muwait-result", "stuck", "steplimit", "panic", "crash", "exclusion", "exclusion-ann", "early-timeout", "bad-cancel", "bad-result"},
-    "plan": {"quick": [("muc", 160, 8), ("muwait", 100, 8), ("timed_contended", 80, 10)],
-             "thorough": [("muc", 1600, 16), ("muwait", 1000, 16), ("timed_contended", 800, 20)]},
+    "oracles": {"cond-under-lock", "muwait-result", "muwait-missed", "stuck", "steplimit", "panic", "crash", "exclusion", "exclusion-ann", "early-timeout", "bad-cancel", "bad-result"},
+    "plan": {"quick": [("muc", 160, 8), ("muwait", 100, 8), ("timed_contended", 80, 10), ("muc_eqmix", 100, 10)],
+             "thorough": [("muc", 1600, 16), ("muwait", 1000, 16), ("timed_contended", 800, 20), ("muc_eqmix", 1000, 20)]},
     "level_text": "Kernel-checked theorems over the MuC model (mu.c + mu_wait.c statement by statement: condition records, same-condition rings, unlock_slow's scan with condition evaluation, MU_CONDITION / MU_ALL_FALSE hints, timeouts and cancellations, unlock_without_wakeup; any number of threads): every condition is evaluated by a thread that owns a share of the lock or the writer bit (unlock_slow's temporary writer lock), never concurrently with another thread's write critical section, and it is the condition the queue record prescribes with the value the protected data gives (C06_cond_under_lock); the lock / spinlock / queue invariants of the extended model (C06_inv_lock, C06_inv_spin, C06_inv_queue); MU_CONDITION clear implies no queued waiter has a condition (C06_hint_partial); the skip over a same-condition ring passes only waiters whose condition denotes the predicate just found false, given the ring invariant (C06_samecond_ring_partial). Tied to the code by lockstep replay of the muc / muwait families (2..4 waiters drawn from identical / eq-equivalent / different conditions, reader and writer mode, cv waiters, timeouts and cancellations on the same mutex, unlock_without_wakeup) through the MuC acceptor — which checks, on every explored execution, which conditions the scan evaluates, which waiters it wakes and every word value — and by the interpreter's oracles: termination of every waiter whose condition was made true (stuck), no evaluation concurrent with a writer (cond-under-lock).",
     "level_note": "PARTIAL: the liveness core of the statement — no waiter whose condition is true is left asleep by nsync_mu_unlock (C06_no_missed_cond_full, C06_no_stuck_state_full), the MU_ALL_FALSE half of the hint invariant (C06_hint_full) and the soundness of unlock_without_wakeup (C06_without_wakeup_sound_full) are stated as definitions but NOT proved; they need the ring invariant as an inductive invariant. For these clauses the check decides by lockstep plus the stuck oracle over the explored schedules only. 'Rings are maximal runs' is refuted (C06_samecond_ring_full_refuted) — harmless: the scan only needs soundness of the skip.",
 }
